@@ -971,6 +971,15 @@ func sameFieldAddr(a, b ssa.Value) bool {
 func rootFieldName(nt *ssa.Function) string {
 	if n := namedOf(nt.Signature.Results().At(0).Type()); n != nil {
 		if st, ok := n.Underlying().(*types.Struct); ok && st.NumFields() > 0 {
+			// the root is the field that holds a node (an interface declared in the tree's package); other fields (a lock,
+			// a cached depth) may come before it
+			for i := 0; i < st.NumFields(); i++ {
+				if fn := namedOf(st.Field(i).Type()); fn != nil && inRepoObj(fn.Obj()) {
+					if _, isI := fn.Underlying().(*types.Interface); isI {
+						return st.Field(i).Name()
+					}
+				}
+			}
 			return st.Field(0).Name()
 		}
 	}
